@@ -160,6 +160,39 @@ def resub_family() -> List[List[list]]:
     return res
 
 
+def worker_family() -> List[List[list]]:
+    """a change made on a worker thread whose hand-off to the loop is overtaken (or not) by a newer
+    change: 1-2 subscribers, the overtaking controller subscribed itself or not, all characteristic
+    kinds, one or two worker updates, hand-off before / after the newer change"""
+    res = []
+    for x in (0, 1, 3, 2):
+        for two_subs in (False, True):
+            for b_sub in (False, True):
+                for overt in ("ctrl_b", "ctrl_a", "loop_set", "none"):
+                    for first in ("worker", "newer"):  # which one the loop sees first
+                        for second_worker in (False, True):
+                            ops = [["advance", 1], ["connect", 0], ["verify", 0], ["put", 0, x, True, None, False],
+                                   ["connect", 1], ["verify", 1]]
+                            if b_sub:
+                                ops.append(["put", 1, x, True, None, False])
+                            if two_subs:
+                                ops += [["connect", 2], ["verify", 2], ["put", 2, x, True, None, False]]
+                            ops.append(["app_set_thread", x, vfor(x, 10)])
+                            if second_worker:
+                                ops.append(["app_set_thread", x, vfor(x, 11)])
+                            if first == "worker":
+                                ops.append(["ready"])
+                            if overt == "ctrl_b":
+                                ops.append(["put", 1, x, None, vfor(x, 20), False])
+                            elif overt == "ctrl_a":
+                                ops.append(["put", 0, x, None, vfor(x, 20), False])
+                            elif overt == "loop_set":
+                                ops.append(["app_set", x, vfor(x, 20)])
+                            ops += [["ready"], ["advance", 16], ["get", 0, x]]
+                            res.append(ops)
+    return res
+
+
 def random_script(rng: random.Random, max_ops: int = 30, flavour: str = "c12") -> List[list]:
     b = Book()
     ops: List[list] = [["advance", 1]]
@@ -188,7 +221,8 @@ def random_script(rng: random.Random, max_ops: int = 30, flavour: str = "c12") -
         r = rng.random()
         x = rng.choice(xs)
         if r < 0.22:
-            ops.append(["app_set", x, vfor(x, rng.choice([1, 2, 3, 10, 20, 30, rng.randrange(101)]))])
+            kind = "app_set_thread" if rng.random() < 0.3 else "app_set"
+            ops.append([kind, x, vfor(x, rng.choice([1, 2, 3, 10, 20, 30, rng.randrange(101)]))])
         elif r < 0.40 and live:
             p = rng.choice(live)
             ev = rng.choice([None, None, True, False]) if rng.random() < 0.6 else None
@@ -249,7 +283,7 @@ def random_script(rng: random.Random, max_ops: int = 30, flavour: str = "c12") -
             ops.append(["stop"])
             b.stopped = True
             b.dead.update(range(len(b.addr)))
-        if rng.random() < 0.55 and ops[-1][0] in ("app_set", "put"):
+        if rng.random() < 0.55 and ops[-1][0] in ("app_set", "put", "app_set_thread"):
             ops.append(["ready"])
     # drain: everything that was closed gets its loss, then time passes
     if rng.random() < 0.7:
